@@ -711,6 +711,28 @@ func (c *Ctx) c19Terminate() {
 			cur = up
 		}
 	}
+	// Terminate is honoured wherever the session reads and dispatches client messages: besides the command loop
+	// that is the COPY reader, which dispatches on the message type itself
+	for _, fn := range c.P.ScopeFuncs() {
+		if !c.P.InPkg(fn, "wire") || fn == hc {
+			continue
+		}
+		if fn.Signature.Recv() == nil {
+			continue
+		}
+		if n := core.NamedOf(fn.Signature.Recv().Type()); n == nil || n.Obj().Name() != "CopyReader" {
+			continue
+		}
+		for _, ci := range core.Calls(fn) {
+			call, ok := ci.(*ssa.Call)
+			if !ok || !isReaderMethod(call, "ReadTypedMsg") {
+				continue
+			}
+			typed := resultOf(call, 0)
+			handles := typed != nil && len(constEqEdges(typed, int64('X'), true)) > 0
+			R.Check(handles, "C19.R4", fkey(fn)+":terminate-while-copying", c.at(call), "a Terminate message that arrives while a statement reads a COPY stream still leads to the terminate hook and the close of the connection", "the COPY reader recognises Terminate", "the COPY reader treats Terminate like any other non-COPY message: it is consumed, the handler sees an error, the server answers E + Z and keeps serving the connection - the terminate hook never runs and the connection is not closed")
+		}
+	}
 	// the Close is invoked on the connection parameter
 	for _, ci := range core.Calls(hc) {
 		cc := ci.Common()
